@@ -42,6 +42,8 @@ def num(x):
         return z3.If(x.e, z3.IntVal(1), z3.IntVal(0))
     if isinstance(x, bool):
         return z3.IntVal(int(x))
+    if z3.is_expr(x):
+        return x
     return ops.as_int(x)
 
 
